@@ -61,7 +61,7 @@ package flamego
 //@   loop 0 decreases i + 1
 
 //@ func (*responseWriter).WriteHeader
-//@   props C13 C05 C17 C03
+//@   props C13 C05 C17 C03 C15 C14
 //@   requires rwInv(w)
 //@   requires 100 <= s && s <= 999
 //@   modifies w.status, w.writeHeaderOnce.fired, w.beforeOnce.fired, w.hookCalls, w.hookOrder, w.hdrAtHooks, w.nHooksRun,
@@ -75,7 +75,7 @@ package flamego
 //@   ensures old(w.status) != 0 ==> w.status == old(w.status) && w.ResponseWriter.hdrCount == old(w.ResponseWriter.hdrCount) && w.hookCalls == old(w.hookCalls)
 
 //@ func (*responseWriter).Write
-//@   props C13 C05 C17 C03
+//@   props C13 C05 C17 C03 C15 C14
 // (C17: what a renderer writes reaches the underlying writer verbatim, for every status; only HEAD drops the body)
 //@   ensures[C17] w.method != "HEAD" ==> w.ResponseWriter.lastWrite == bytes(b)
 //@   requires rwInv(w)
@@ -215,7 +215,10 @@ package flamego
 //@ define handlersNonNil(hs []Handler) bool = forall k int :: 0 <= k && k < len(hs) ==> hs[k] != nil
 
 //@ func newContext
-//@   props C03 C05 C07
+//@   props C03 C05 C07 C02 C04 C12 C18
+//@   ensures[C02,C18] result.(*context).params == params
+//@   ensures[C12] result.(*context).urlPath == urlPath
+//@   ensures[C18,C02] result.(*context).request.Request == r
 //@   requires r != nil && w != nil
 //@   requires handlersNonNil(handlers)
 //@   ensures dyn(result) == type(*context) && fresh(result)
@@ -225,7 +228,11 @@ package flamego
 //@   ensures fresh(result.(*context).Injector) && fresh(result.(*context).responseWriter) && fresh(result.(*context).request)
 
 //@ func (*Flame).createContext
-//@   props C03 C05 C07
+//@   props C03 C05 C07 C02 C04 C12
+//@   ensures[C02] result.(*context).params == params
+//@   ensures[C12] result.(*context).urlPath == urlPath
+// request scope first, then the application's: the fresh injector of the request gets the Flame instance as parent
+//@   ensures[C04] inject.Injector(result).parentScope == iface(type(*Flame), f)
 //@   requires r != nil && w != nil
 //@   requires handlersNonNil(handlers) && handlersNonNil(f.handlers)
 //@   ensures dyn(result) == type(*context) && fresh(result)
@@ -342,14 +349,14 @@ package flamego
 //@ define shortcutInv(r *router) bool = forall m string, p string :: has(r.staticRoutes, m) && has(r.staticRoutes[m], p) ==> shortcutOK(r.staticRoutes[m][p])
 
 //@ func (*router).ServeHTTP
-//@   props C07 C02 C10 C05 C01
-//@   requires[C10,C01] shortcutAgrees(r)
+//@   props C07 C02 C10 C05 C01 C09
+//@   requires[C10,C01,C09,C07] shortcutAgrees(r)
 //@   ghost before dyn#0: req.chosen = leaf
 //@   ghost before dyn#1: req.chosen = leaf
 //@   ghost before notFound#0: req.chosen = nil
 //@   ghost before notFound#1: req.chosen = nil
-//@   ensures[C10,C01] has(r.routeTrees, req.Method) ==> req.chosen == specNext(nodeOf(r.routeTrees[req.Method]), trimLeftSlash(req.URL.Path), 0, req.Header)
-//@   ensures[C10,C01] !has(r.routeTrees, req.Method) ==> req.chosen == nil
+//@   ensures[C10,C01,C09,C07] has(r.routeTrees, req.Method) ==> req.chosen == specNext(nodeOf(r.routeTrees[req.Method]), trimLeftSlash(req.URL.Path), 0, req.Header)
+//@   ensures[C10,C01,C09,C07] !has(r.routeTrees, req.Method) ==> req.chosen == nil
 //@   assert[C02] before dyn#1: params["route"] == routeStr(leafBase(leaf).route)
 //@   requires routerWF(r) && treeWF()
 //@   requires w != nil && req != nil && req.URL != nil
@@ -371,7 +378,7 @@ package flamego
 //@     (forall k int :: 0 <= k && k < len(f.befores) ==> f.befores[k] != nil)
 
 //@ func (*Flame).ServeHTTP
-//@   props C07 C05
+//@   props C07 C05 C01
 //@   requires flameWF(f) && treeWF()
 //@   requires w != nil && r != nil && r.URL != nil
 //@   modifies r.chains, r.URL.Path, route.Segment.str, route.Segment.strOnce.fired, route.Route.str, route.Route.strOnce.fired
@@ -428,10 +435,10 @@ package flamego
 //@   modifies *
 //@   panics true
 //@ func (*context).Params
-//@   props C18
+//@   props C18 C02
 //@   ensures result == c.params
 //@ func (*context).Param
-//@   props C18 C05
+//@   props C18 C05 C02
 //@   ensures result == c.params[name]
 //@ func (*context).ParamInt
 //@   props C18
@@ -626,6 +633,52 @@ package flamego
 //@   ensures !isErrRV(respRV(vals)) && emptyRV(vals) ==> rhWriter(c).bodyBytes == old(rhWriter(c).bodyBytes)
 //@   ensures !isErrRV(respRV(vals)) && !emptyRV(vals) ==> rhWriter(c).hdrCount == 1 && (!hasIntStatus(vals) ==> rhWriter(c).firstStatus == 200)
 //@   ensures !isErrRV(respRV(vals)) && !emptyRV(vals) ==> rhWriter(c).lastWrite == bodyRV(vals)
+
+// The built-in fast invokers call the wrapped function exactly once with the resolved arguments, in order, and return
+// nothing of their own (ghost: calls made and the arguments of the last one).
+//@ ghost private field ContextInvoker.calls int
+//@ ghost private field ContextInvoker.lastCtx Context
+//@ functype ContextInvoker(fn, ctx)
+//@   modifies *
+//@   panics true
+//@   ensures fn.calls == old(fn.calls) + 1 && fn.lastCtx == ctx
+//@ func (ContextInvoker).Invoke
+//@   props C04
+//@   requires invoke != nil && len(args) >= 1
+//@   modifies *
+//@   panics true
+//@   skip typeassert
+//@   ensures result0 == nil && result1 == nil
+//@   ensures invoke.calls == old(invoke.calls) + 1 && invoke.lastCtx == old(args[0]).(Context)
+//@ ghost private field httpHandlerFuncInvoker.calls int
+//@ ghost private field httpHandlerFuncInvoker.lastW http.ResponseWriter
+//@ ghost private field httpHandlerFuncInvoker.lastR *http.Request
+//@ functype httpHandlerFuncInvoker(fn, w, r)
+//@   modifies *
+//@   panics true
+//@   ensures fn.calls == old(fn.calls) + 1 && fn.lastW == w && fn.lastR == r
+//@ func (httpHandlerFuncInvoker).Invoke
+//@   props C04
+//@   requires invoke != nil && len(args) >= 2
+//@   modifies *
+//@   panics true
+//@   skip typeassert
+//@   ensures result0 == nil && result1 == nil
+//@   ensures invoke.calls == old(invoke.calls) + 1 && invoke.lastW == old(args[0]).(http.ResponseWriter) && invoke.lastR == old(args[1]).(*http.Request)
+//@ ghost private field LoggerInvoker.calls int
+//@ ghost private field LoggerInvoker.lastCtx Context
+//@ functype LoggerInvoker(fn, ctx, logger)
+//@   modifies *
+//@   panics true
+//@   ensures fn.calls == old(fn.calls) + 1 && fn.lastCtx == ctx
+//@ func (LoggerInvoker).Invoke
+//@   props C04
+//@   requires invoke != nil && len(params) >= 2
+//@   modifies *
+//@   panics true
+//@   skip typeassert
+//@   ensures result0 == nil && result1 == nil
+//@   ensures invoke.calls == old(invoke.calls) + 1 && invoke.lastCtx == old(params[0]).(Context)
 
 // the built-in fast path for func() (int, string) yields the same abstract values as a reflective call would
 //@ functype teapotInvoker() a, b
